@@ -8,12 +8,11 @@ TECHNIQUE = ("Coq proof over all schedules of an interleaving model (producers /
              "atomic FIFO licensed by C30) of Logger::send/enqueue/stop and the consumer loop; refutation witnesses for the "
              "clauses the code violates; model tied to the code by running the real FileLogger with 1-8 producer threads and "
              "replaying the observed linearisation in the extracted model")
-LEVEL_TEXT = ("Theorems for all schedules, producer counts and programs (code after repairs c53d854, 4b85524): c28_order, c28_levels, "
-              "c28_at_most_once, c28_return_exact/c28_return_ok, c28_all_written (every line accepted before stop()'s request_stop "
-              "is written when stop() returns, except lines pushed between the logger thread's last empty try_pop and its load of "
-              "_stopping: c28_stop_window_refuted shows that exception is real), c28_all_written_done, c28_oracle_sound / "
-              "c28_oracle_ok (the extracted oracle holds on the model); refuted: empty line taken for the stop marker; "
-              "witnesses against the code before the repairs (c28_lost_lines_orig_refuted, c28_return_orig_refuted).")
+LEVEL_TEXT = ("Theorems for all schedules, producer counts and programs (code after repairs c53d854, 4b85524, aa7ec53): c28_order, "
+              "c28_levels, c28_at_most_once, c28_return_exact/c28_return_ok, c28_all_written (when stop() has returned every line "
+              "accepted before its request_stop has been written, exactly once), c28_all_written_done, c28_oracle_sound / "
+              "c28_oracle_ok (the extracted oracle holds on the model); refuted: empty line taken for the stop marker; witnesses "
+              "against earlier code: c28_lost_lines_orig_refuted, c28_return_orig_refuted, c28_stop_window_intermediate_refuted.")
 LEVEL_NOTE = ("Partial: the logic is proved on the model; not proved are the atomicity/linearizability of the FastFlow queue "
               "(property C30), absence of data races, and the OS file semantics. The OS chooses the real schedule: the check "
               "replays the observed one in the model and requires the model to reproduce the file and return values exactly.")
@@ -22,15 +21,13 @@ PROPS_FILE = "Props/Properties_C28.v"
 COQ_TARGETS = ["Props/Properties_C28.vo", "Extract/Extract_C28.vo"]
 TRUSTED_BASE = ["Coq 8.16.1 kernel (coqc), vm_compute only for closed witnesses",
                 "Extraction with ExtrOcamlBasic, no Extract Constant; OCaml 4.13.1",
-                "hand-written model coq/C28/LoggerQ.v of runtime/logger.cpp:60-140 and include/fix8/logger.hpp:296-312 (FIX8_MPMC_FF branch), tied by differential execution; coq/C28/LoggerQOrig.v = the code before the repairs, used only for two witness theorems",
+                "hand-written model coq/C28/LoggerQ.v of runtime/logger.cpp:60-140 and include/fix8/logger.hpp:296-312 (FIX8_MPMC_FF branch), tied by differential execution; coq/C28/LoggerQOrig.v / LoggerQMid.v = the code before the repairs / between 4b85524 and aa7ec53, used only for witness theorems",
                 "the queue abstraction (atomic FIFO) rests on property C30 (coq/C30), which is cited, not re-proved",
                 "ocaml/prelude.ml + ocaml/c28_driver.ml (parsing, schedule inputs taken from the observed file), harness/h_c28.cpp, vlib"]
 ASSUMPTIONS = ["ff::uMPMC_Ptr_Queue behaves as an atomic FIFO (C30); try_push never fails (no allocation failure)",
                "sequentially consistent interleaving of the modelled atomic actions; _stopping, _sequence and the stream are "
                "only touched as modelled (set_levels/set_flags are not called concurrently)",
-               "all producers have finished before stop() is called (the property speaks of lines submitted before the stop)",
-               "no push falls between the logger thread's unsuccessful try_pop and its load of _stopping (c28_stop_window_refuted: "
-               "there the repaired loop still loses lines; not observable without a hook inside the loop, window of a few ns)"]
+               "all producers have finished before stop() is called (the property speaks of lines submitted before the stop)"]
 RULE = ("1..8 producer threads x 0..200 submit calls with levels Debug..Fatal against level masks 0..31 (none, all, single, random), "
         "texts carrying producer and call number; stop() (a) by the producer finishing last, (b) 0..2000 us after the producers "
         "were joined, (c) after the file was seen complete; a few programs contain an empty text (the stop marker) at an enabled or "
@@ -165,7 +162,7 @@ def c_ret(case, r, m):
 
 
 def c_lost(case, r, m):
-    """(finding repaired by 4b85524; kept for the record) stop() was called without waiting for the queue (modes a, b)
+    """(finding repaired by 4b85524+aa7ec53; kept for the record) stop() was called without waiting for the queue (modes a, b)
     and the file is short of accepted lines"""
     mode, mask, delay, progs = parse(case)
     want = sum(1 for p in progs for ch in p if mask >> lev(ch) & 1)
